@@ -613,6 +613,14 @@ theorem grow_spec (c : Cfg) (now : Nat) (hs : 1 ≤ c.slide) (ws : List (Slot α
     obtain ⟨ext, b', h1, h2, h3, h4, h5⟩ := growLoop_spec c now hs (now + 2) ws a b hc hl (by omega)
     exact ⟨ext, b', a, h1, h2, h3, ha, h4, h5⟩
 
+/-- The fuel `now + 2` of `grow` is enough: on every chain that does not start in the future the loop
+    stops because its condition `back.start < now` is false (cited in Model/ProcTimeWindow.lean). -/
+theorem grow_fuel_enough (c : Cfg) (now : Nat) (hs : 1 ≤ c.slide) (ws : List (Slot α)) (a : Nat)
+    (hc : ChainFrom c a ws) (ha : a ≤ now) :
+    ∃ b, (grow c now ws).getLast? = some b ∧ ¬ b.start < now := by
+  obtain ⟨ext, b', _, hg, _, _, _, hl, hb⟩ := grow_spec c now hs ws a hc ha
+  exact ⟨b', by rw [hg]; exact hl, by omega⟩
+
 /-! ### the representation invariant -/
 
 /-- Invariant of the deque at the clock reading `t` of the last `process` call: the slots form a
